@@ -224,8 +224,11 @@ Definition continue_internal (limited : bool) : M unit :=
        let* _ := modify (fun w => w <| w_async := false |>) in
        ret ch
      else ret None) in
-  let* _ := modify (fun w => w <| w_rcc ::= N.pred |>) in
+  (* the decrement stands before the delivery block (whose no-handler branch returns Err): regenerated
+     fact counter_dec_first; the other order leaks the counter on an error return *)
+  let* _ := when (sw_counter_dec_first sw) (modify (fun w => w <| w_rcc ::= N.pred |>)) in
   let* _ := deliver_errors in
+  let* _ := when (negb (sw_counter_dec_first sw)) (modify (fun w => w <| w_rcc ::= N.pred |>)) in
   match changed with
   | Some m => mfor m (fun kv => notify_variable_changed (fst kv) (snd kv))
   | None => ret tt
